@@ -122,15 +122,13 @@ func audit(F *facts, line, res string) []problem {
 		kf = F.Ver
 	}
 
-	// does the reference expect a panic?
+	// does the reference expect a panic? (SetAttr refuses keys >= the key limit)
 	expectPanic := false
 	for _, t := range toks {
 		f := strings.Split(t, ":")
-		if (f[0] == "s" || f[0] == "qs") && len(f) == 4 {
+		if f[0] == "s" && len(f) == 4 {
 			if k, ok := atoi(f[2]); ok && k >= int(F.KeyLimit) {
-				if f[0] == "s" {
-					expectPanic = true
-				}
+				expectPanic = true
 			}
 		}
 	}
